@@ -118,3 +118,11 @@ func (st *SplitTracker) AssignedSplits() []SourceSplitterShard {
 
 	return assigned
 }
+
+// KnownSplits returns every tracked split, assigned or not.
+func (st *SplitTracker) KnownSplits() []SourceSplitterShard {
+	st.mu.Lock()
+	defer st.mu.Unlock()
+
+	return slices.Clone(st.knownSplits.Values())
+}
